@@ -37,6 +37,14 @@ def val_match(impl_v, spec_v):
     return spec_v == '*' or impl_v == spec_v
 
 
+LOCKED_STRUCTURAL = ('create', 'createarch', 'destroy', 'destroynow', 'assign', 'assignid', 'remove', 'removeid', 'build')
+GUARDED_QUERIES = ('valid', 'getconst', 'getmut', 'has', 'archof', 'clone', 'removeshared', 'getshared')
+
+
+def strip_stamps(line):
+    return line
+
+
 class Lifecycle:
     """per-place bracket language of the lifecycle events (C03) for types that have a destructor"""
     def __init__(self, destroy_pals):
@@ -92,6 +100,10 @@ def tier_a(impl, spec, scripts, aspects):
         lc = Lifecycle(destroy_pals_of(lines_of.get(name, [])))
         aa, br = {}, {}
         fail = None
+        depth = 0
+        prev = None
+        locked_created = set()
+        cloned = set()
         for i, b in enumerate(blocks):
             s = sb[i] if i < len(sb) else None
             if s is not None and s['tags'].get('C') and s['tags']['C'][0].split()[1] != '0':
@@ -110,11 +122,11 @@ def tier_a(impl, spec, scripts, aspects):
                             if m and not fail:
                                 fail = dict(aspect='lifecycle', what=m + ' (event %s)' % ev)
                         t = ev.split(':')
-                        if t[0] == 'AA' and t[2].startswith('a'):
-                            key = (t[3], int(t[2].split('.')[1]))
+                        if t[0] == 'AA':
+                            key = (t[3], int(t[1]))      # (entity, palette type), wherever the instance lives
                             aa[key] = aa.get(key, 0) + 1
                         if t[0] == 'BR':
-                            key = (t[3], int(t[2].split('.')[1])) if t[2].startswith('a') else (t[3], -1)
+                            key = (t[3], int(t[1]))
                             br[key] = br.get(key, 0) + 1
                 if fail:
                     break
@@ -125,9 +137,48 @@ def tier_a(impl, spec, scripts, aspects):
                         break
             if s is not None and s['tags'].get('C') and s['tags']['C'][0].split()[1] != '0':
                 break      # the script left the documented contract here: nothing after it is demanded
+            opt = b['op'].split()
+            opname = opt[0] if opt else ''
+            if 'isolation' in aspects and depth > 0 and prev is not None and opname in LOCKED_STRUCTURAL:
+                pv = (prev['tags'].get('V') or ['V'])[0].split()
+                cv = (b['tags'].get('V') or ['V'])[0].split()
+                pv = pv[1] if len(pv) > 1 else ''
+                cv = cv[1] if len(cv) > 1 else ''
+                if cv[:len(pv)] != pv or '1' in cv[len(pv):]:
+                    fail = dict(aspect='isolation', what='validity of existing handles changed while locked: %s -> %s' % (pv, cv))
+                    break
+                for tg in ('H', 'A'):
+                    # an archetype without members may appear (the caller fetched it); membership must not change
+                    if [x for x in prev['tags'].get(tg, []) if ' e=- ' not in x] != [x for x in b['tags'].get(tg, []) if ' e=- ' not in x]:
+                        fail = dict(aspect='isolation', what='observable state (%s lines) changed by an operation issued while locked' % tg)
+                        break
+                if fail:
+                    break
+            if opname == 'clone':
+                r = (b['tags'].get('R') or ['R'])[0].split()
+                if len(r) > 1 and r[1].startswith('#'):
+                    cloned.add(r[1])      # cloning fires afterClone, not afterAssign: not judged here
+            if depth > 0 and opname in ('create', 'createarch', 'build'):
+                r = (b['tags'].get('R') or ['R'])[0].split()
+                if len(r) > 1 and r[1].startswith('#'):
+                    locked_created.add(r[1])
+            if opname == 'lock':
+                depth += 1
+            elif opname == 'unlock' and depth > 0:
+                depth -= 1
+            prev = b
+            if 'harmless' in aspects and s is not None and opname in GUARDED_QUERIES and len(opt) > 1:
+                tok = opt[1]
+                sv = (s['tags'].get('V') or ['V'])[0].split()
+                sv = sv[1] if len(sv) > 1 else ''
+                dead = (not tok.startswith('#')) or int(tok[1:]) >= len(sv) or sv[int(tok[1:])] == '0'
+                r = (b['tags'].get('R') or ['R'])[0].split()[1:]
+                if dead and r and r[0] not in ('null', '0'):
+                    fail = dict(aspect='harmless', what='%s through a dead/null/foreign handle returned %s' % (opname, ' '.join(r)))
+                    break
             if s is None or not s['tags'].get('V'):
                 continue
-            if 'valid' in aspects:
+            if 'valid' in aspects and b['tags'].get('V'):
                 iv = (b['tags'].get('V') or ['V'])[0].split()
                 sv = s['tags']['V'][0].split()
                 iv = iv[1] if len(iv) > 1 else ''
@@ -210,12 +261,17 @@ def tier_a(impl, spec, scripts, aspects):
                 for l in s['tags'].get('X', []):
                     t = l.split()
                     k, c = t[1].split(':')
+                    if k in cloned:
+                        continue
                     att = int(t[2][4:]); det = int(t[3][4:])
                     a_ = aa.get((k, int(c)), 0); b_ = br.get((k, int(c)), 0)
-                    if a_ != att:
+                    # an entity created under lock whose component is removed (or which is destroyed) in the same pack
+                    # never materialises: the attach/detach pair is elided together
+                    e = att - a_
+                    if e < 0 or (e > 0 and k not in locked_created):
                         fail = dict(aspect='callbacks', what='afterAssign fired %d times for %d attachments of component %s to %s' % (a_, att, c, k))
-                    elif b_ < det or b_ > att:
-                        fail = dict(aspect='callbacks', what='beforeRemove fired %d times for %d detachments of component %s from %s' % (b_, det, c, k))
+                    elif b_ < det - e or b_ > a_:
+                        fail = dict(aspect='callbacks', what='beforeRemove fired %d times for %d detachments (%d afterAssign) of component %s from %s' % (b_, det, a_, c, k))
                 if fail:
                     break
         if fail:
